@@ -108,11 +108,14 @@ emitted as exact `Pct.mk` values; the only operations are the comparisons and `i
 /-- the value of `p` times `2^p.exp`, signed -/
 @[reducible] def f64Num (p : Pct) : Int := if p.neg then -(p.num : Int) else (p.num : Int)
 /-- `a < b` on floats (cross-multiplied by the positive denominators) -/
-@[reducible] def f64Lt (a b : Pct) : Prop := f64Num a * 2 ^ b.exp < f64Num b * 2 ^ a.exp
+def f64Lt (a b : Pct) : Prop := f64Num a * 2 ^ b.exp < f64Num b * 2 ^ a.exp
 /-- `a <= b` on floats -/
-@[reducible] def f64Le (a b : Pct) : Prop := f64Num a * 2 ^ b.exp ≤ f64Num b * 2 ^ a.exp
+def f64Le (a b : Pct) : Prop := f64Num a * 2 ^ b.exp ≤ f64Num b * 2 ^ a.exp
 /-- `a == b` on floats (`-0.0 == 0.0`) -/
-@[reducible] def f64Eq (a b : Pct) : Prop := f64Num a * 2 ^ b.exp = f64Num b * 2 ^ a.exp
+def f64Eq (a b : Pct) : Prop := f64Num a * 2 ^ b.exp = f64Num b * 2 ^ a.exp
+instance (a b : Pct) : Decidable (f64Lt a b) := inferInstanceAs (Decidable (_ < _))
+instance (a b : Pct) : Decidable (f64Le a b) := inferInstanceAs (Decidable (_ ≤ _))
+instance (a b : Pct) : Decidable (f64Eq a b) := inferInstanceAs (Decidable (_ = _))
 /-- `int(float64(n) * p)`: the model's product-round-truncate on the magnitudes, sign of the product (Go
 truncates toward zero; rounding is symmetric).  As in the hand model, `float64(n)` is taken to be exact
 (true for |n| ≤ 2^53) and the result to fit an `int`. -/
